@@ -166,7 +166,7 @@ func runC15(w *World, r *Report) {
 	r.Rule("R-C15-2", "in each case of Tables() every node-bearing field of the statement type is passed to read/write/admin (or the whole statement is walked); DDL expression fields are frozen exceptions", 20)
 	r.Rule("R-C15-3", "StatementKind() and Tables() have a case for every ast.Statement implementer; authorizers' switches cover every UsageMode; schema-kind predicates cover every Create/Drop/Alter kind", 40)
 	r.Rule("R-C15-4", "edge cut: with the edges {schema-kind predicate false, DDL-authority true, administrator bypass} removed, no success return of an authorizer is reachable", 2)
-	r.Rule("R-C15-5", "the SQL text that reaches execution is the authorizer's output / is executed only on the authorizer's success edge", 2)
+	r.Rule("R-C15-5", "the SQL text that reaches execution is the statement the authorizer handed back (the formatter's print of the parse it checked), executed only on the authorizer's success edge; the text that came in is never executed", 4)
 
 	a := loadSQLAst(w, r, "R-C15-1")
 	if a == nil {
@@ -1051,37 +1051,61 @@ func c15ExecOnlyAuthorized(w *World, r *Report) {
 		for _, auth := range auths {
 			n++
 
-			text := auth.Call.Args[1]
+			raw := auth.Call.Args[1]
 
-			var errV ssa.Value
+			var errV, outV ssa.Value
+
+			nres := auth.Call.Signature().Results().Len()
 
 			if auth.Referrers() != nil {
 				for _, ref := range *auth.Referrers() {
-					if e, ok := ref.(*ssa.Extract); ok && e.Index == 3 {
-						errV = e
+					if e, ok := ref.(*ssa.Extract); ok {
+						switch {
+						case e.Index == nres-1:
+							errV = e
+						case e.Index == 0 && isStringType(e.Type()):
+							outV = e
+						}
 					}
 				}
 			}
 
+			if outV == nil {
+				r.Violate("R-C15-5", fnKey(fn)+"|authorizeAndClassifySQL", w.pos(auth.Pos()), "the authorizer hands back no statement text (or it is ignored): whatever is executed afterwards is the text that came in, which the database may read differently from the parser that authorized it")
+
+				continue
+			}
+
 			cuts := cutEdges(fn, func(f Fact) bool { return f.Kind == "nil" && f.V == errV && errV != nil })
 
-			// sinks: any later call in this function that receives the same text value
+			fromOut := func(v ssa.Value) bool {
+				return derivesFrom(v, func(x ssa.Value) bool { return x == outV }, func(string) bool { return false })
+			}
+
+			fromRaw := func(v ssa.Value) bool {
+				return derivesFrom(v, func(x ssa.Value) bool {
+					return x != outV && (x == raw || sameSliceValue(x, raw))
+				}, func(string) bool { return false })
+			}
+
 			var sinks []*ssa.Call
 
 			allInstrs(fn, func(in ssa.Instruction) {
 				c, ok := in.(*ssa.Call)
-				if !ok || c == auth {
+				if !ok || c == auth || !isSQLExecutor(callID(c.Common())) {
 					return
 				}
 
 				for _, arg := range callArgs(c.Common()) {
-					same := derivesFrom(arg, func(v ssa.Value) bool { return v == text }, func(string) bool { return false })
-					if _, isPhi := arg.(*ssa.Phi); arg != text && !isPhi {
-						same = false // only the value itself or a phi merging it
+					if !isStringType(arg.Type()) {
+						continue
 					}
 
-					if same && isSQLExecutor(callID(c.Common())) {
+					switch {
+					case fromOut(arg):
 						sinks = append(sinks, c)
+					case fromRaw(arg) && instrReachableFrom(auth, c):
+						r.Violate("R-C15-5", fnKey(fn)+"|"+lastSeg(callID(c.Common()))+" raw text", w.pos(c.Pos()), "the text executed here is the text that was given to the authorizer, not the statement it handed back: where the parser and the database read the bytes differently (an e'…' escape string on SQLite) a table can hide from the authorization inside what the parser took for a string literal")
 					}
 				}
 			})
@@ -1089,7 +1113,7 @@ func c15ExecOnlyAuthorized(w *World, r *Report) {
 			sort.Slice(sinks, func(i, j int) bool { return sinks[i].Pos() < sinks[j].Pos() })
 
 			if len(sinks) == 0 {
-				r.Violate("R-C15-5", fnKey(fn)+"|authorizeAndClassifySQL", w.pos(auth.Pos()), "no executor of the authorized text found after the authorizer call (the text executed is a different value)")
+				r.Violate("R-C15-5", fnKey(fn)+"|authorizeAndClassifySQL", w.pos(auth.Pos()), "no executor of the authorizer's output found after the authorizer call")
 			}
 
 			for _, s := range sinks {
@@ -1098,9 +1122,55 @@ func c15ExecOnlyAuthorized(w *World, r *Report) {
 				if errV == nil || pathAvoiding(auth, cuts, func(ssa.Instruction) bool { return false }, func(i ssa.Instruction) bool { return i == ssa.Instruction(sink) }) != nil {
 					r.Violate("R-C15-5", key, w.pos(s.Pos()), "the SQL text is executed on a path where authorizeAndClassifySQL's error is not known to be nil")
 				} else {
-					r.Discharge("R-C15-5", key, w.pos(s.Pos()), "executed only on the authorizer's nil-error edge")
+					r.Discharge("R-C15-5", key, w.pos(s.Pos()), "executes the authorizer's output, only on its nil-error edge")
 				}
 			}
+		}
+	}
+
+	// (c) the authorizer's output is the formatter's
+	if fn := w.ssaFunc(sc, "authorizeAndClassifySQL"); fn == nil {
+		r.Anchor("R-C15-5", "scripting.authorizeAndClassifySQL")
+	} else {
+		key := "scripting.authorizeAndClassifySQL|text handed back"
+		bad := ""
+
+		// the edges on which no authorization applies (no session / administrator)
+		cuts := cutEdges(fn, func(f Fact) bool {
+			if f.Kind != "true" {
+				return false
+			}
+
+			_, isCmp := f.V.(*ssa.BinOp)
+
+			return !isCmp // a boolean flag such as noAuthCheck (phi of the || of its two tests)
+		})
+
+		reachable := reach(fn.Blocks[0], cuts, nil)
+
+		for _, ret := range returnsOf(fn) {
+			res := retResults(ret)
+			if len(res) < 2 || !isNilConst(res[len(res)-1]) {
+				continue // failure return
+			}
+
+			v := resolveLocal(res[0])
+
+			isFormat := derivesFrom(v, func(x ssa.Value) bool {
+				c, ok := x.(*ssa.Call)
+
+				return ok && strings.HasSuffix(callID(c.Common()), "sqlparse.Sqlparse.Format")
+			}, nil)
+
+			if !isFormat && reachable[ret.Block()] {
+				bad = w.pos(ret.Pos())
+			}
+		}
+
+		if bad != "" {
+			r.Violate("R-C15-5", key, bad, "a success return for a caller whose tables were checked hands back text that is not the formatter's print of the parsed statement")
+		} else {
+			r.Discharge("R-C15-5", key, w.pos(fn.Pos()), "every success return outside the no-session / administrator edges hands back Sqlparse.Format()")
 		}
 	}
 
